@@ -593,6 +593,15 @@ func (vc *VC) loopHead(li *loopInfo) {
 	for _, c := range li.invs {
 		vc.assume(ctx.formula(c.E))
 	}
+	// ghost blocks anchored at this loop run at its head in every iteration, after the invariant is assumed
+	// (ghost locals are part of every loop's havoc set)
+	if d := vc.decl; d != nil && len(vc.inl) == 0 {
+		for _, c := range d.Clauses {
+			if c.Kind == "ghost" && c.Anchor == "loop" && c.Loop == li.ordinal {
+				vc.runGhost(c, ctx, nil)
+			}
+		}
+	}
 	// automatic fact for range-over-slice loops: the hidden index starts at -1 and only grows
 	for _, c := range rangeIdx {
 		if t, ok := vc.cur.cells[c]; ok && c.Block().Dominates(li.header) {
